@@ -232,6 +232,7 @@ type Session struct {
 	stallAfterWrite  int64
 	lastAuth         bool   // the previous command was an AUTH exchange
 	lastAuthResp     string // the last SASL response line received (EchoOnCancel)
+	quitSeen         bool   // the client has said QUIT on this connection (whatever was answered)
 	challengePending bool   // a scripted 334 went out and has not been answered yet
 	curLine          string
 }
@@ -590,6 +591,14 @@ func (s *Session) handle(line string) bool {
 		// servers differ in how they refuse it (500, 501, 502, 503): scriptable as verb "*"
 		act, nth, _ := s.rule("*")
 		return s.reply(cmdSeq, "*", nth, act, 500, "", "command unrecognized")
+	}
+	if s.quitSeen && c.Verb != "" {
+		// RFC 5321 4.1.1.10: QUIT ends the session from the client's side, whatever the server
+		// answered; nothing follows it on this connection
+		s.obs("command-after-quit:"+c.Verb, line)
+	}
+	if c.Verb == "QUIT" {
+		s.quitSeen = true
 	}
 	if s.challengePending {
 		s.challengePending = false
